@@ -74,6 +74,16 @@ class Tree:
             os.makedirs(os.path.dirname(p), exist_ok=True)
             open(p, "w").write(text)
 
+    def replay(self, cmds, skip=None):
+        """a self-contained description (same format as a known-finding witness) that re-creates this
+        tree (without the entry files of other cases) and re-runs `cmds` on the real code"""
+        files = {rp: text.split("\n", 1)[1] for rp, text in self.files.items() if not (skip and skip(rp))}
+        for d in self.cargo:
+            files[os.path.join(d, "Cargo.toml")] = ""
+        for d in self.dirs:
+            files[os.path.join(d, ".keep")] = ""
+        return {"files": files, "cwd": "", "cmds": [c.replace(self.root, "{root}") for c in cmds]}
+
     # --- model side
     def absdir(self, reldir):
         """model directory (list of name codes) of <root>/<reldir>; components of the scratch root
@@ -125,44 +135,56 @@ def import_text(rng, k, ab, lv, segs, item="zz", alias=None, style=None):
 # ----------------------------------------------------------------------------- harness I/O
 
 def _limits():
-    resource.setrlimit(resource.RLIMIT_AS, (6 << 30, 6 << 30))
+    resource.setrlimit(resource.RLIMIT_AS, (4 << 30, 4 << 30))
 
 
 def run_c14(binary, root, lines, timeout):
-    """Run one batch. Returns (list of result lines or None, status) where status is 'ok',
-    'timeout' or 'crash:<rc>'."""
+    """Run one batch. Returns (result lines produced so far, status): status 'ok' when every line was
+    answered; 'hang' when the harness watchdog stopped at a case that ran > 10 s (last line is HANG);
+    'timeout' / 'died:<rc>' when the process was killed or crashed (the next unanswered line is the culprit)."""
     try:
         p = subprocess.run([binary, "run", "c14", root], input="\n".join(lines) + "\n", capture_output=True,
                            text=True, timeout=timeout, preexec_fn=_limits)
-    except subprocess.TimeoutExpired:
-        return None, "timeout"
-    if p.returncode != 0:
-        return None, "crash:%d %s" % (p.returncode, p.stderr[-300:])
-    out = [l for l in p.stdout.split("\n") if l]
-    if len(out) != len(lines):
-        return None, "crash:short output (%d of %d lines) %s" % (len(out), len(lines), p.stderr[-300:])
-    return out, "ok"
+        rc, so, se = p.returncode, p.stdout, p.stderr
+    except subprocess.TimeoutExpired as e:
+        so = e.stdout.decode() if isinstance(e.stdout, bytes) else (e.stdout or "")
+        rc, se = "timeout", ""
+    out = [l for l in so.split("\n") if l]
+    if rc == 0 and len(out) == len(lines):
+        return out, "ok"
+    if rc == 4 and out and out[-1] == "HANG":
+        return out, "hang"
+    if rc == "timeout":
+        return out, "timeout"
+    return out, "died:%s %s" % (rc, se[-300:])
 
 
-def run_lines(chk, binary, root, lines, per_case_timeout=30):
-    """Batch run with isolation of hangs/crashes: a batch that hangs or dies is re-run line by line;
-    the culprit lines get the result 'HANG' / 'DIED ...' (a property violation for C14, not infra)."""
-    if not lines:
-        return []
-    out, st = run_c14(binary, root, lines, timeout=120 + len(lines) * 0.5)
-    if out is not None:
-        return out
+def run_lines(chk, binary, root, lines):
+    """Run all lines; a case on which the real code hangs (watchdog, 10 s = 3 orders of magnitude above
+    the normal few ms) or kills the process gets the result 'HANG' / 'DIED ...' — a property violation
+    for C14, not an infrastructure failure — and the run resumes after it."""
     res = []
+    remaining = list(lines)
     bad = 0
-    for l in lines:
-        o, st = run_c14(binary, root, [l], timeout=per_case_timeout)
-        if o is None:
-            bad += 1
-            res.append("HANG" if st == "timeout" else "DIED " + st)
-            if bad > 25:
-                raise vlib.Infra("c14 harness fails on more than 25 single cases: " + st)
+    t0 = time.time()
+    while remaining:
+        out, st = run_c14(binary, root, remaining, timeout=90 + len(remaining) * 0.2)
+        if st == "ok":
+            res += out
+            break
+        bad += 1
+        if st == "hang":
+            res += out            # the last one is HANG, for the culprit
+            remaining = remaining[len(out):]
         else:
-            res.append(o[0])
+            answered = out[:len(remaining) - 1]
+            res += answered + [("HANG (process timeout)" if st == "timeout" else "DIED " + st)]
+            remaining = remaining[len(answered) + 1:]
+        if bad >= 4:
+            # enough failing inputs: do not spend 10 s on each further hanging case
+            res += ["SKIPPED"] * len(remaining)
+            break
+    vlib.log("[c14] harness: %d lines in %.1fs, %d abnormal" % (len(lines), time.time() - t0, bad))
     return res
 
 
@@ -318,10 +340,12 @@ def part_A(chk, binary, scratch, res_broken):
         desc = {"tree": t.name, "import": c["text"], "entry_dir": c["edir"], "import_in_dir": c["idir"],
                 "cwd": c["cwd"], "entry": c["entry"], "files": sorted(f for f in t.files if not re.search(r"/?z[qn]\d+\.", f)),
                 "cargo": sorted(t.cargo), "dirs": sorted(t.dirs)}
+        mine = (c["stem"] + ".", (c["nstem"] or c["stem"]) + ".")
+        desc["replay"] = t.replay(lines[4 * n:4 * n + 4], skip=lambda rp: re.match(r"z[qn]\d+\.", os.path.basename(rp)) and not os.path.basename(rp).startswith(mine))
         for tag, o in (("rip", o_rip), ("cli", o_cli), ("mr", o_mr), ("imp", o_imp)):
             if o.startswith(("HANG", "DIED", "PANIC")):
                 fails.append(dict(desc, why="%s: the real code did not return normally: %s" % (tag, o)))
-        if any(o.startswith(("HANG", "DIED", "PANIC")) for o in (o_imp, o_rip, o_cli, o_mr)):
+        if any(o.startswith(("HANG", "DIED", "PANIC", "SKIPPED")) for o in (o_imp, o_rip, o_cli, o_mr)):
             continue
         if o_imp.rstrip() != want_imp.rstrip():
             fails.append(dict(desc, why="spelling parsed to %r, expected %r (equivalent spellings must denote the same import)" % (o_imp, want_imp)))
@@ -412,27 +436,29 @@ def rel_segs(frm_dir, to_file):
     return (lv, segs)
 
 
-def gen_tree_B(rng, scratch, k):
+def gen_tree_B(rng, scratch, k, plain=False):
+    """plain: one directory, `from x import zz` only — no listed class can apply, so CLI, LSP and
+    ModuleResolver must load exactly the same files (the complement theorems, on the real code)"""
     t = Tree(scratch, "w%d" % k)
     dirs = [""]
     for d1 in SEGN:
-        if rng.random() < 0.5:
+        if not plain and rng.random() < 0.5:
             dirs.append(d1)
             for d2 in SEGN[:2]:
                 if rng.random() < 0.4:
                     dirs.append(d1 + "/" + d2)
-    if rng.random() < 0.15:
+    if not plain and rng.random() < 0.15:
         dirs.append("src")
     files = []
     for d in dirs:
-        for stem in SEGN + ["mod"]:
-            if rng.random() < (0.45 if stem != "mod" else 0.2):
-                e = "incan" if rng.random() < 0.12 else "incn"
+        for stem in (SEGN + ["mod"] if not plain else SEGN + ["d", "e", "g"]):
+            if rng.random() < (0.45 if stem != "mod" else 0.2) + (0.25 if plain else 0):
+                e = "incan" if rng.random() < 0.12 and not plain else "incn"
                 files.append(os.path.join(d, stem + "." + e))
     edir = rng.choice(dirs)
     entry = os.path.join(edir, "main.incn")
     files.append(entry)
-    if rng.random() < 0.1:
+    if not plain and rng.random() < 0.1:
         t.cargo.add(rng.choice(dirs))
     for rp in files:
         d = os.path.dirname(rp)
@@ -448,6 +474,8 @@ def gen_tree_B(rng, scratch, k):
                     kd = rng.choice("FFM")
                     segs = rs[1] + (["zz"] if kd == "M" and rng.random() < 0.7 else [])
                     rec = (kd, False, rs[0], segs)
+            if plain:
+                rec = ("F", False, 0, [rng.choice(SEGN + ["d", "e", "g", "h", "main"])])
             if rec is None:
                 rec = gen_import(rng)
             recs.append(rec)
@@ -460,17 +488,18 @@ def gen_tree_B(rng, scratch, k):
 
 def part_B(chk, binary, scratch, res_broken):
     rng = chk.rng
-    n = 150 if chk.tier == "quick" else 1500
+    n = 110 if chk.tier == "quick" else 1500
     projs = []
     for k in range(n):
-        t, edir = gen_tree_B(rng, scratch, k)
+        plain = rng.random() < 0.4
+        t, edir = gen_tree_B(rng, scratch, k, plain)
         t.write()
         comps = [c for c in edir.split("/") if c]
-        if rng.random() < 0.6:
+        if plain or rng.random() < 0.6:
             ab, cwd_rel = True, None
         else:
             ab, cwd_rel = False, "/".join(comps[:rng.randrange(len(comps) + 1)])
-        projs.append({"tree": t, "edir": edir, "ab": ab, "cwd_rel": cwd_rel})
+        projs.append({"tree": t, "edir": edir, "ab": ab, "cwd_rel": cwd_rel, "plain": plain})
     lines = []
     for p in projs:
         t = p["tree"]
@@ -487,16 +516,15 @@ def part_B(chk, binary, scratch, res_broken):
     defs, terms = [], []
     for p in projs:
         t = p["tree"]
-        defs.append("Definition fs_%s : fsys := %s.\nDefinition tbl_%s := %s." % (t.name, t.fs_term(), t.name, tbl_term(t)))
         if p["ab"]:
             cwdl, b = [], t.absdir(p["edir"])
         else:
             cwdl = t.absdir(p["cwd_rel"])
             b = [code(x) for x in os.path.dirname(p["entry"]).split("/") if x]
-        terms.append("run_collect fs_%s tbl_%s %s %s %s %d Incn" % (t.name, t.name, zl(cwdl), cb(p["ab"]), zl(b), code("main")))
+        terms.append("(run_collect (%s) (%s) %s %s %s %d Incn)" % (t.fs_term(), tbl_term(t), zl(cwdl), cb(p["ab"]), zl(b), code("main")))
     req = "From Coq Require Import ZArith List Bool.\nImport ListNotations.\nFrom Verif Require Import C14.Model.\nOpen Scope Z_scope."
     ty = "(Z * list (list Z * list Z)) * (Z * list (list Z * list Z)) * (Z * list (list Z)) * (Z * list (list Z)) * bool"
-    model = vlib.coq_eval(req, ty, "fun x => x", terms, tag="c14b", extra_defs="\n".join(defs), shard=40)
+    model = vlib.coq_eval(req, ty, "fun x => x", terms, tag="c14b", shard=10)
     fails, corr_bad = [], []
     hits = {}
     dist = {"cli_modules": {}, "cycle_reported_by_ModuleCollector": 0, "cli_lsp_sets_differ": 0}
@@ -506,12 +534,13 @@ def part_B(chk, binary, scratch, res_broken):
         desc = {"tree": t.name, "entry": p["entry"], "cwd": p["cwd"],
                 "files": {rp: [import_text(None, *r, style=1) for r in t.imports.get(rp, [])] for rp in sorted(t.files)},
                 "cargo": sorted(t.cargo)}
+        desc["replay"] = t.replay(lines[5 * n_:5 * n_ + 5])
         bad = False
         for tag, o in (("collect_modules", o_cli), ("ModuleResolver", o_mr), ("LSP", o_lsp), ("ModuleCollector", o_mc), ("check", o_chk)):
             if o.startswith(("HANG", "DIED", "PANIC")):
                 bad = True
                 fails.append(dict(desc, why="%s did not return normally on this project (hang/crash): %s" % (tag, o[:300])))
-        if bad:
+        if bad or any(o.startswith("SKIPPED") for o in (o_cli, o_mr, o_lsp, o_mc, o_chk)):
             continue
         (mc_code, mc_items), (mm_code, mm_items), (ml_code, ml_paths), (mk_code, mk_paths), m_flag = _unflatten_B(model[n_])
         entry_r = t.rendered(os.path.join(p["edir"], "main.incn"))
@@ -562,6 +591,11 @@ def part_B(chk, binary, scratch, res_broken):
         if cli_set is not None and lsp_set is not None:
             cli_deps = [x for x in cli_set if list(x) != entry_r]
             lsp_deps = [x for x in lsp_set if list(x) != entry_r]
+            if p["plain"]:
+                dist["plain_projects"] = dist.get("plain_projects", 0) + 1
+                r_mr = parse_modules(t, o_mr)
+                if r_mr[0] == 0 and sorted(tuple(a) for a, _ in r_mr[1]) != cli_set:
+                    fails.append(dict(desc, why="ModuleResolver and CLI load different files in a flat `from x import y` project"))
             if cli_deps != lsp_deps or (tuple(entry_r) in lsp_set):
                 dist["cli_lsp_sets_differ"] += 1
                 listed = all(any(f["id"] == x and f.get("status") == "known" for f in chk.findings)
@@ -583,7 +617,378 @@ def _unflatten_B(v):
     return (a, b), c, d, e, flag
 
 
+
+# ----------------------------------------------------------------------------- part C: visibility, cycles, missing modules
+
+KINDS = ["fn", "const", "model", "enum", "newtype", "class", "trait"]
+
+
+def decl_text(kind, name, pub, variants=()):
+    pre = "pub " if pub else ""
+    if kind == "fn":
+        return "%sdef %s() -> int:\n    return 1\n" % (pre, name)
+    if kind == "const":
+        return "%sconst %s: int = 3\n" % (pre, name)
+    if kind == "model":
+        return "%smodel %s:\n    x: int\n" % (pre, name)
+    if kind == "class":
+        return "%sclass %s:\n    x: int\n" % (pre, name)
+    if kind == "enum":
+        return "%senum %s:\n    %s\n    %s\n" % (pre, name, variants[0], variants[1])
+    if kind == "newtype":
+        return "%snewtype %s = int\n" % (pre, name)
+    if kind == "trait":
+        return "%strait %s:\n    def t%s(self) -> int: ...\n" % (pre, name, name.lower())
+    raise ValueError(kind)
+
+
+def decl_term(kind, name, pub, variants=()):
+    dk = {"fn": "DFn", "const": "DConst", "model": "DType", "class": "DType", "newtype": "DType", "trait": "DTrait"}.get(kind)
+    if kind == "enum":
+        dk = "(DEnum %s)" % zl([code(v) for v in variants])
+    return "(D %d %s %s)" % (code(name), cb(pub), dk)
+
+
+def use_text(kind, name, var):
+    """a statement of main() that refers to `name` unqualified"""
+    if kind == "fn":
+        return "    %s = %s()" % (var, name)
+    if kind == "const":
+        return "    %s = %s" % (var, name)
+    if kind in ("model", "class"):
+        return "    %s = %s(x=1)" % (var, name)
+    if kind == "newtype":
+        return "    %s = %s(3)" % (var, name)
+    if kind == "variant":
+        return "    %s = %s" % (var, name)
+    raise ValueError(kind)
+
+
+LAYOUTS = {
+    # name: (module file, entry dir, import path record (abs, levels, segs))
+    "flat": ("m.incn", "", (False, 0, ["m"])),
+    "nested": ("pkg/m.incn", "", (False, 0, ["pkg", "m"])),
+    "parent": ("m.incn", "sub", (False, 1, ["m"])),
+    "crate": ("m.incn", "sub", (True, 0, ["m"])),
+    "incan": ("m.incan", "", (False, 0, ["m"])),
+}
+
+
+def diag_canon(msgs):
+    out = []
+    for m in msgs:
+        m = m.strip()
+        if not m:
+            continue
+        a = re.match(r"Cannot import `(\w+)` from `[^`]*`: it is private or not exported", m)
+        b = re.match(r"Unknown symbol '(\w+)'", m)
+        c = re.match(r"Type '(\w+)' has no field '(\w+)'", m)
+        if a:
+            out.append([1, code(a.group(1))])
+        elif b:
+            out.append([2, code(b.group(1))])
+        elif c:
+            out.append([3, code(c.group(2))])
+        else:
+            out.append(["other", m[:200]])
+    return out
+
+
+def part_C(chk, binary, scratch, res_broken):
+    rng = chk.rng
+    cases = []
+    trees = []
+    k = 0
+    layouts = list(LAYOUTS)
+    kinds_x = ["fn", "const", "model", "enum", "newtype", "class", "trait"]
+    for layout in layouts:
+        mfile, edir, (iab, ilv, isegs) = LAYOUTS[layout]
+        for kind in kinds_x:
+            if chk.tier == "quick" and layout in ("parent", "crate", "incan") and kind != "fn":
+                continue
+            if chk.tier == "quick" and layout == "nested" and kind not in ("fn", "const", "enum", "model"):
+                continue
+            for xpub in (False, True):
+                for ypub in (False, True):
+                    t = Tree(scratch, "v%d" % k)
+                    k += 1
+                    trees.append(t)
+                    if layout == "crate":
+                        t.cargo.add("")
+                    xname = {"fn": "fx", "const": "CX", "model": "Mx", "enum": "Ex", "newtype": "Nx", "class": "Kx", "trait": "Tx"}[kind]
+                    variants = ("Vx", "Wx") if kind == "enum" else ()
+                    decls = [(kind, xname, xpub, variants), ("fn", "fy", ypub, ())]
+                    # a transitive dependency with one pub and one private item
+                    t.add(os.path.join(os.path.dirname(mfile), "n.incn"), decl_text("fn", "fpn", True) + "\n" + decl_text("fn", "fqn", False))
+                    ndecls = [("fn", "fpn", True, ()), ("fn", "fqn", False, ())]
+                    mimp = (False, 0, ["n"]) if layout != "nested" else (False, 0, ["pkg", "n"])
+                    t.add(mfile, "\n".join(decl_text(*d) for d in decls), [import_text(None, "F", mimp[0], mimp[1], mimp[2], item="fpn", style=0)])
+                    t.decls = {mfile: decls, os.path.join(os.path.dirname(mfile), "n.incn"): ndecls}
+                    mod_alias = isegs[-1]
+                    # (import statements as (rec, items, alias, text), uses as (text, model term), referenced (name, pub))
+                    variants_of = []
+                    def imp_from(items):
+                        rec = ("F", iab, ilv, isegs)
+                        txt = import_text(rng, "F", iab, ilv, isegs, item=", ".join(n + (" as " + a if a else "") for n, a in items))
+                        return (rec, items, None, txt)
+                    def imp_item(name, alias=None):
+                        rec = ("M", iab, ilv, isegs + [name])
+                        return (rec, [], alias, import_text(rng, "M", iab, ilv, isegs + [name], alias=alias))
+                    def imp_mod(alias=None):
+                        rec = ("M", iab, ilv, isegs)
+                        return (rec, [], alias, import_text(rng, "M", iab, ilv, isegs, alias=alias))
+                    # an enum is referred to through its variant Vx (a bare name, visible iff the enum is pub)
+                    ukind, uname = (kind, xname) if kind != "enum" else ("variant", "Vx")
+                    entries = []
+                    if kind != "trait":
+                        entries.append(("from-x use-x", [imp_from([(xname, None)])], [("N", uname, use_text(ukind, uname, "u0"))], [(xname, xpub)]))
+                        if kind != "enum":
+                            entries.append(("from-x-as use-alias", [imp_from([(xname, "zal")])], [("N", "zal", use_text(ukind, "zal", "u0"))], [(xname, xpub)]))
+                        entries.append(("from-y use-x", [imp_from([("fy", None)])], [("N", uname, use_text(ukind, uname, "u0"))], [("fy", ypub), (xname, xpub)]))
+                        entries.append(("import-m use-x", [imp_mod()], [("N", uname, use_text(ukind, uname, "u0"))], [(xname, xpub)]))
+                        entries.append(("import-m::x use-x", [imp_item(xname)], [("N", uname, use_text(ukind, uname, "u0"))], [(xname, xpub)]))
+                        if kind in ("fn", "model", "class", "newtype"):
+                            call = use_text(ukind, xname, "u0").replace(xname, mod_alias + "." + xname, 1)
+                            entries.append(("import-m use-m.x()", [imp_mod()], [("Q", (mod_alias, xname), call)], [(xname, xpub)]))
+                            call2 = use_text(ukind, xname, "u0").replace(xname, "mq." + xname, 1)
+                            entries.append(("import-m-as use-q.x()", [imp_mod("mq")], [("Q", ("mq", xname), call2)], [(xname, xpub)]))
+                        if kind == "const":
+                            entries.append(("import-m use-m.X", [imp_mod()], [("F", (mod_alias, xname), "    u0 = %s.%s" % (mod_alias, xname))], [(xname, xpub)]))
+                        if kind == "enum":
+                            entries.append(("from-variant use-variant", [imp_from([("Vx", None)])], [("N", "Vx", use_text("variant", "Vx", "u0"))], [("Vx", xpub)]))
+                            entries.append(("import-m use-variant", [imp_mod()], [("N", "Wx", use_text("variant", "Wx", "u0"))], [("Wx", xpub)]))
+                        # items of the transitive dependency n (never imported by the entry)
+                        entries.append(("import-m use-transitive-private", [imp_mod()], [("N", "fqn", use_text("fn", "fqn", "u0"))], [("fqn", False)]))
+                        entries.append(("import-m use-transitive-pub", [imp_mod()], [("N", "fpn", use_text("fn", "fpn", "u0"))], [("fpn", True)]))
+                    else:
+                        entries.append(("from-x", [imp_from([(xname, None)])], [], [(xname, xpub)]))
+                        entries.append(("from-x,y", [imp_from([(xname, None), ("fy", None)])], [], [(xname, xpub), ("fy", ypub)]))
+                    for j, (label, imps, uses, refs) in enumerate(entries):
+                        stem = "zq%d" % j
+                        body = "def main() -> None:\n" + ("\n".join(u[2] for u in uses) if uses else "    pass") + "\n"
+                        t.add(os.path.join(edir, stem + ".incn"), body, [i[3] for i in imps])
+                        cases.append({"tree": t, "layout": layout, "kind": kind, "label": label, "imps": imps, "uses": uses, "refs": refs,
+                                      "edir": edir, "stem": stem, "xpub": xpub, "ypub": ypub, "mfile": mfile})
+    # constructed cycles and missing modules (flat projects: no resolver class applies)
+    cyc = []
+    for n in (1, 2, 3, 4):
+        for through_entry in (False, True):
+            t = Tree(scratch, "y%d%d" % (n, through_entry))
+            trees.append(t)
+            names = ["c%d" % i for i in range(n)]
+            for i, nm in enumerate(names):
+                nxt = names[(i + 1) % n] if not (through_entry and i == n - 1) else "main"
+                t.add(nm + ".incn", "pub def f%s() -> int:\n    return 1\n" % nm, ["from %s import %s" % (nxt, "f" + nxt if nxt != "main" else "main")])
+            t.add("main.incn", "pub def main() -> None:\n    pass\n", ["from %s import f%s" % (names[0], names[0])])
+            cyc.append({"tree": t, "what": "cycle", "n": n, "through_entry": through_entry})
+    for txt in ("from nosuch import zz", "import nosuch", "import nosuch::zz", "from pkg.nosuch import zz", "from ..nosuch import zz", "from crate.nosuch import zz"):
+        t = Tree(scratch, "y9%d" % len(cyc))
+        trees.append(t)
+        t.add("main.incn", "def main() -> None:\n    pass\n", [txt])
+        t.add("pkg/other.incn", "pub def zz() -> int:\n    return 1\n")
+        cyc.append({"tree": t, "what": "missing", "text": txt})
+    for t in trees:
+        t.write()
+    lines = []
+    for c in cases:
+        t = c["tree"]
+        e = os.path.join(t.root, c["edir"], c["stem"] + ".incn")
+        c["entry"] = e
+        lines += ["check\t\t" + e, "lsp\t" + e]
+    for c in cyc:
+        e = os.path.join(c["tree"].root, "main.incn")
+        c["entry"] = e
+        lines += ["check\t\t" + e, "lsp\t" + e, "checkcli\t\t%s\t30000" % e]
+    sample_cli = cases[::11]
+    for c in sample_cli:
+        lines.append("checkcli\t\t%s\t30000" % c["entry"])
+    out = run_lines(chk, binary, scratch, lines)
+    fails, corr_bad = [], []
+    hits = {}
+    # --- model terms: deps come from what the real collectors loaded (names as the real code names them)
+    terms, tmeta = [], []
+    parsed = []
+    for n_, c in enumerate(cases):
+        t = c["tree"]
+        o_chk, o_lsp = out[2 * n_:2 * n_ + 2]
+        o_chk, _, o_mods = o_chk.partition(" @@")
+        o_cli = "OK " + o_mods
+        desc = {"tree": t.name, "layout": c["layout"], "module": {rp: t.files[rp] for rp in t.decls}, "entry_text": t.files[os.path.join(c["edir"], c["stem"] + ".incn")],
+                "case": c["label"], "kind": c["kind"]}
+        desc["replay"] = t.replay(lines[2 * n_:2 * n_ + 2] + ["checkcli\t\t%s\t30000" % c["entry"]],
+                                  skip=lambda rp: re.match(r"zq\d+\.", os.path.basename(rp)) and os.path.basename(rp) != c["stem"] + ".incn")
+        c["desc"] = desc
+        if any(o.startswith("SKIPPED") for o in (o_chk, o_lsp)):
+            parsed.append(None)
+            continue
+        if any(o.startswith(("HANG", "DIED", "PANIC")) for o in (o_cli, o_chk, o_lsp)):
+            fails.append(dict(desc, why="the real code did not return normally", outputs=[o_cli[:200], o_chk[:200], o_lsp[:200]]))
+            parsed.append(None)
+            continue
+        mods = parse_modules(t, o_cli)
+        ml = re.match(r"OK deps=(.*?) self=(\d+) diags=(.*)$", o_lsp)
+        if mods[0] != 0 or not ml:
+            corr_bad.append(dict(desc, which="collect", impl=[o_cli[:300], o_lsp[:300]]))
+            parsed.append(None)
+            continue
+        by_r = {tuple(t.rendered(rp)): rp for rp in t.files}
+        cli_deps = []
+        for r, segs in mods[1][:-1]:
+            rp = by_r.get(tuple(r))
+            cli_deps.append((segs, t.decls.get(rp, [])))
+        lsp_deps = []
+        for d in [x for x in ml.group(1).split(";") if x]:
+            rp = d[len(t.name) + 1:]
+            lsp_deps.append(([code(os.path.basename(rp).rsplit(".", 1)[0])], t.decls.get(rp, [])))
+        def deps_term(deps):
+            return "[" + "; ".join("(%s, [%s])" % (zl(n), "; ".join(decl_term(*d) for d in ds)) for n, ds in deps) + "]"
+        imps_t = "[" + "; ".join("(VI %s [%s] %s)" % (imp_term(rec), "; ".join("(%d, %s)" % (code(nm), "Some %d" % code(a) if a else "None") for nm, a in items),
+                                                      "(Some %d)" % code(al) if al else "None") for rec, items, al, _ in c["imps"]) + "]"
+        uses_t = "[" + "; ".join(("UName %d" % code(u[1])) if u[0] == "N" else ("%s %d %d" % ("UQual" if u[0] == "Q" else "UField", code(u[1][0]), code(u[1][1]))) for u in c["uses"]) + "]"
+        own = "[D %d false DFn]" % code("main")
+        terms.append("(run_check %s %s %s %s, run_check %s %s %s %s)" % (deps_term(cli_deps), own, imps_t, uses_t, deps_term(lsp_deps), own, imps_t, uses_t))
+        tmeta.append(n_)
+        real_cli = diag_canon(o_chk[5:].split("||")) if o_chk.startswith("FAIL ") else ([] if o_chk == "PASS" else [["other", o_chk[:200]]])
+        c["o_chk"] = o_chk
+        real_lsp = diag_canon(ml.group(3).split("||"))
+        parsed.append((real_cli, real_lsp))
+    req = "From Coq Require Import ZArith List Bool.\nImport ListNotations.\nFrom Verif Require Import C14.Model.\nOpen Scope Z_scope."
+    model = vlib.coq_eval(req, "list (Z * Z) * list (Z * Z)", "fun x => x", terms, tag="c14c", shard=60) if terms else []
+    dist = {}
+    for idx, n_ in enumerate(tmeta):
+        c = cases[n_]
+        real_cli, real_lsp = parsed[n_]
+        m_cli, m_lsp = model[idx]
+        m_cli, m_lsp = [list(x) for x in m_cli], [list(x) for x in m_lsp]
+        desc = c["desc"]
+        chk.count_case((c["tree"].name, c["label"]), nontrivial=True)
+        if m_cli != real_cli:
+            corr_bad.append(dict(desc, which="check_with_imports (CLI dependencies)", impl=real_cli, model=m_cli))
+        if m_lsp != real_lsp:
+            corr_bad.append(dict(desc, which="check_with_imports (LSP dependencies)", impl=real_lsp, model=m_lsp))
+        # oracle (ground truth of the generator): a reference to a private item must be rejected
+        private_ref = any(not pub for _, pub in c["refs"])
+        key = "%s/%s/%s" % (c["layout"], c["label"], "private" if private_ref else "public")
+        for side, real in (("cli", real_cli), ("lsp", real_lsp)):
+            verdict = "reject" if real else "accept"
+            dist[key + "/" + side + ":" + verdict] = dist.get(key + "/" + side + ":" + verdict, 0) + 1
+            if private_ref and not real:
+                cls = None
+                if c["label"].startswith("import-m::x"):
+                    cls = "item-import-unchecked"
+                elif "use-m.x()" in c["label"] or "use-q.x()" in c["label"]:
+                    cls = "qualified-use-unchecked"
+                elif side == "lsp" and c["layout"] == "nested" and c["label"].startswith("from-"):
+                    cls = "lsp-module-name"
+                if cls and any(f["id"] == cls and f.get("status") == "known" for f in chk.findings):
+                    hits[cls] = hits.get(cls, 0) + 1
+                else:
+                    fails.append(dict(desc, why="%s accepts a reference to a non-pub item of another module" % side, diagnostics=real, classes=[cls]))
+            if not private_ref and real and side == "cli":
+                # a program that only refers to pub items is rejected: outside C14's statement, recorded only
+                k_ = "(info) pub-only program rejected: " + ("field syntax m.CONST" if any(d[0] == 3 for d in real) else c["label"])
+                hits[k_] = hits.get(k_, 0) + 1
+        if bool(real_cli) != bool(real_lsp):
+            # the two front ends load different files for `import a::b` (k_multi), or name the module differently
+            multi = any(rec[0] == "M" and len(rec[3]) > 1 for rec, _, _, _ in c["imps"])
+            # m.incn itself contains an import and lies outside the entry's directory: CLI and LSP resolve it
+            # against different directories (nested-base), so they load different transitive dependencies
+            nested_base = os.path.dirname(c["mfile"]) != c["edir"]
+            cls = ("import-last-segment" if multi else
+                   "lsp-module-name" if c["layout"] == "nested" and c["label"].startswith("from-") else
+                   "nested-base" if nested_base else None)
+            if cls and any(f["id"] == cls and f.get("status") == "known" for f in chk.findings):
+                hits["verdicts differ: " + cls] = hits.get("verdicts differ: " + cls, 0) + 1
+            else:
+                fails.append(dict(desc, why="CLI and LSP disagree on accepting this program", cli=real_cli, lsp=real_lsp))
+    # --- cycles / missing modules: must end with a diagnostic, in time, without crash
+    base = 2 * len(cases)
+    for n_, c in enumerate(cyc):
+        o_chk, o_lsp, o_cc = out[base + 3 * n_: base + 3 * n_ + 3]
+        o_chk = o_chk.partition(" @@")[0]
+        t = c["tree"]
+        desc = {"tree": t.name, "files": t.files, "what": c["what"], "replay": t.replay(lines[base + 3 * n_: base + 3 * n_ + 3])}
+        if any(o.startswith("SKIPPED") for o in (o_chk, o_lsp, o_cc)):
+            continue
+        chk.count_case((t.name, c["what"]), nontrivial=True)
+        for tag, o in (("check", o_chk), ("lsp", o_lsp), ("check_file (child process)", o_cc)):
+            if o.startswith(("HANG", "DIED", "PANIC", "TIMEOUT", "CRASH")):
+                fails.append(dict(desc, why="%s: %s on a project with a %s" % (tag, o[:200], c["what"])))
+        if (o_chk == "PASS") != (o_cc == "PASS"):
+            corr_bad.append(dict(desc, which="check_file vs harness replica", impl=[o_chk[:200], o_cc[:200]]))
+        if o_chk == "PASS":
+            fid = "cycle-silent" if c["what"] == "cycle" else "missing-module-silent"
+            if any(f["id"] == fid and f.get("status") == "known" for f in chk.findings):
+                hits[fid] = hits.get(fid, 0) + 1
+            else:
+                fails.append(dict(desc, why="a project with a %s passes the type check without any diagnostic" % c["what"], result=o_chk))
+    base += 3 * len(cyc)
+    for n_, c in enumerate(sample_cli):
+        o = out[base + n_]
+        i = cases.index(c)
+        o_chk = out[2 * i].partition(" @@")[0]
+        if o.startswith("SKIPPED") or "desc" not in c:
+            continue
+        if o.startswith(("TIMEOUT", "CRASH")):
+            fails.append(dict(c["desc"], why="check_file in a child process: " + o[:200]))
+        elif (o == "PASS") != (o_chk == "PASS"):
+            corr_bad.append(dict(c["desc"], which="check_file vs harness replica", impl=[o_chk[:200], o[:200]]))
+    chk.coverage["C_cases"] = len(cases)
+    chk.coverage["C_cycle_missing_projects"] = len(cyc)
+    chk.coverage["C_distribution"] = dist
+    chk.coverage["C_known_class_hits"] = hits
+    return fails, corr_bad, 2 * len(tmeta) + len(sample_cli) + len(cyc)
+
+
+
+def replay_witness(binary, scratch, w):
+    """Write the witness project of a known finding and run its commands on the real code."""
+    root = os.path.join(scratch, "kf")
+    shutil.rmtree(root, ignore_errors=True)
+    for rp, text in w["files"].items():
+        p = os.path.join(root, rp)
+        os.makedirs(os.path.dirname(p), exist_ok=True)
+        open(p, "w").write("# F %s\n%s" % (rp, text))
+    lines = [c.replace("{root}", root) for c in w["cmds"]]
+    out, st = run_c14(binary, root, lines, timeout=120)
+    shutil.rmtree(root, ignore_errors=True)
+    return [o.replace(root + "/", "") for o in out] if out is not None else [st]
+
+
 # ----------------------------------------------------------------------------- driver
+
+DOCUMENTED_SPELLINGS = [
+    # (text from docs-site language/reference/imports_and_modules.md, expected record)
+    ("from models import User, Product, Order", "K F 0 0 models"),
+    ("from utils import format_currency as fmt, validate_email as check_email", "K F 0 0 utils"),
+    ("import models::User", "K M 0 0 models.User"),
+    ("import utils::format_currency as fmt", "K M 0 0 utils.format_currency"),
+    ("from db.models import User, Product", "K F 0 0 db.models"),
+    ("import db::models::User", "K M 0 0 db.models.User"),
+    ("from ..common import Logger", "K F 0 1 common"),
+    ("from ...shared.utils import format_date", "K F 0 2 shared.utils"),
+    ("import super::common::Logger", "K M 0 1 common.Logger"),
+    ("import super::super::shared::utils::format_date", "K M 0 2 shared.utils.format_date"),
+    ("from crate.config import Settings", "K F 1 0 config"),
+    ("import crate::lib::database::Connection", "K M 1 0 lib.database.Connection"),
+]
+
+
+def part_S(chk, binary, scratch, res_broken):
+    """every documented import spelling parses to the import it is documented to mean"""
+    out = run_lines(chk, binary, scratch, ["imp\t" + t for t, _ in DOCUMENTED_SPELLINGS])
+    fails, hits = [], {}
+    for (text, want), got in zip(DOCUMENTED_SPELLINGS, out):
+        chk.count_case(("spelling", text), nontrivial=True)
+        if got.rstrip() == want:
+            continue
+        if text.startswith("from ...") and any(f["id"] == "dots-grandparent-syntax" and f.get("status") == "known" for f in chk.findings):
+            hits["dots-grandparent-syntax"] = hits.get("dots-grandparent-syntax", 0) + 1
+        else:
+            fails.append({"import": text, "expected": want, "actual": got, "why": "a documented import spelling does not denote the documented import"})
+    chk.coverage["S_known_class_hits"] = hits
+    return fails, [], 0
+
 
 def load_findings(chk):
     # TEMPORARY FALLBACK (lead: drop after merging build/kf-C14.json into known_findings.json)
@@ -608,6 +1013,8 @@ def run(chk):
     res = chk.proof_stage("C14", allow_axioms=(), rs2v_units=None)
     binary = os.environ.get("VERIF_C14_BIN") or vlib.build_harness("debug")  # env override: development only
     ok, log = vlib.coq_build(["C14/Model.vo"])
+    if not ok and "Error" not in log:
+        raise vlib.Infra("coqbuild C14/Model.vo failed without a Coq error: " + log[-500:])
     if not ok:
         chk.violation("proof-broken", {"theorem_or_tie": "C14/Model.v does not build", "log": log[-1500:]}, no_input=True)
         return
@@ -619,14 +1026,29 @@ def run(chk):
             raise vlib.Infra("an ancestor of the scratch directory carries Cargo.toml/src: " + anc)
     try:
         fails, corr_bad, validated = [], [], 0
-        f, cb_, v = part_A(chk, binary, scratch, res)
-        fails += f
-        corr_bad += cb_
-        validated += v
+        for part in (part_S, part_A, part_B, part_C):
+            t0 = time.time()
+            f, cb_, v = part(chk, binary, scratch, res)
+            vlib.log("[c14] %s: %d failing, %d correspondence mismatches, %.1fs" % (part.__name__, len(f), len(cb_), time.time() - t0))
+            fails += f
+            corr_bad += cb_
+            validated += v
+        # known findings: replay every witness on the real code
+        for f in chk.findings:
+            if f.get("status") != "known" or not f.get("witness", {}).get("cmds"):
+                continue
+            got = replay_witness(binary, scratch, f["witness"])
+            if got == f["witness"]["actual"]:
+                chk.known(f["id"], "%s: %s" % (f["id"], f["summary"]))
+            else:
+                chk.notes.append("known finding %s no longer reproduces: %r" % (f["id"], got))
     finally:
         shutil.rmtree(scratch, ignore_errors=True)
-    chk.coverage["rule"] = ("seeded random directory trees (nesting <= 3, .incn/.incan, mod/__init__ files, Cargo.toml and src markers) x random imports in "
-                            "every spelling; a case is non-trivial when some resolver found a file; distinct by (tree, import, dirs, cwd)")
+    chk.coverage["rule"] = ("A: seeded random directory trees (nesting <= 3, .incn/.incan, mod/__init__ files, Cargo.toml and src markers, absolute and cwd-relative "
+                            "entry spellings) x random imports in every spelling, one import per entry (or per nested importer); non-trivial when some resolver found a file. "
+                            "B: random multi-file projects (40% flat `from x import y` only) with cycles and missing modules, whole collectors compared; non-trivial when "
+                            "a dependency was loaded. C: module x kind of item x every placement of `pub` on (x, y) x import spelling x use form, plus constructed cycles "
+                            "(length 1-4, through the entry or not) and missing modules. distinct by (tree, case)")
     chk.coverage["traces_validated_against_impl"] = validated
     chk.coverage["correspondence_mismatches"] = len(corr_bad)
     for f in fails[:20]:
@@ -649,7 +1071,21 @@ def _ancestors(p):
 
 
 def replay(path):
+    """Re-create each recorded project under build/ and run its commands on the real code again."""
     data = json.load(open(path))
-    for v in data["violations"]:
-        print(json.dumps(v["detail"], indent=1))
-    return 0
+    binary = os.environ.get("VERIF_C14_BIN") or vlib.build_harness("debug")
+    scratch = os.path.join(vlib.BUILD, "c14-replay-%d" % os.getpid())
+    rc = 0
+    try:
+        for v in data["violations"]:
+            d = v["detail"]
+            rp = d.pop("replay", None) if isinstance(d, dict) else None
+            print(json.dumps(d, indent=1)[:4000])
+            if rp:
+                got = replay_witness(binary, scratch, rp)
+                for c, g in zip(rp["cmds"], got):
+                    print("  real code: %s\n    -> %s" % (c.replace("\t", " "), g))
+                rc = 1
+    finally:
+        shutil.rmtree(scratch, ignore_errors=True)
+    return rc
